@@ -103,11 +103,9 @@ func main() {
 	}
 	if *noEvidence {
 		bad := 0
-		for _, o := range total.Obligations() {
-			if o.Status != core.Discharged {
-				bad++
-				fmt.Printf("  %s %s [%s] %s: %s\n", o.Status, o.Rule, o.Key, o.Pos, o.Detail)
-			}
+		for _, o := range total.Unlisted(*verif) {
+			bad++
+			fmt.Printf("  %s %s [%s] %s: %s\n", o.Status, o.Rule, o.Key, o.Pos, o.Detail)
 		}
 		fmt.Printf("%s: %d obligations, %d not discharged\n", *prop, len(total.Obligations()), bad)
 		if bad > 0 {
@@ -153,12 +151,10 @@ func runCanary(total *core.Ctx, pr *rules.Prop, prop, repo, verif string) map[st
 		ctx := runConfig(core.Config{Name: "canary", Dir: repo, Overlay: map[string][]byte{path: []byte(mutated)}}, pr, prop, "quick")
 		bad := 0
 		first := ""
-		for _, o := range ctx.Obligations() {
-			if o.Status != core.Discharged {
-				bad++
-				if first == "" {
-					first = o.Rule + " [" + o.Key + "]"
-				}
+		for _, o := range ctx.Unlisted(verif) {
+			bad++
+			if first == "" {
+				first = o.Rule + " [" + o.Key + "]"
 			}
 		}
 		out = map[string]any{"mutant": m.Note + " (" + m.File + ")", "reported": bad, "first_report": first, "status": "detected"}
